@@ -1,8 +1,13 @@
 import I18n.Lemmas.CharsetTables
+import I18n.Lemmas.CharsetRegistry
 import I18n.Lemmas.CharsetCharmaps
 import I18n.Lemmas.CharsetIconv
+import I18n.Lemmas.CharsetIconvSchedule
+import I18n.Lemmas.CharsetIconvCodecs
+import I18n.Lemmas.CharsetEncodeOk
 import I18n.Lemmas.CharsetCheckTags
 import I18n.Lemmas.CharsetEucTw
+import I18n.Lemmas.CharsetEucTwReal
 /-!
 # C20 — charset names are classified consistently and the extra codecs are lossless
 
@@ -20,9 +25,18 @@ it `not-python`, so the tool calls it non-portable — `portable_law_refuted` / 
 -/
 namespace I18n.Props.C20
 open I18n I18n.Charset I18n.Charset.Tables I18n.Generated.Charset
+open I18n.Charset.Cns (ignored_pin plane1_forms_agree dup_fact)
+open I18n.Generated.CharsetCns (plane1 plane1two ignoredRanges planesAccepted)
 open I18n.Spec.Charset (gettextCharsets asciiRepertoire gettextLists InjectiveOnDefined ValidSpan canonical)
 
 set_option maxRecDepth 100000
+
+private instance exceptDecEq {ε α : Type} [DecidableEq ε] [DecidableEq α] : DecidableEq (Except ε α)
+  | .ok a, .ok b => if h : a = b then isTrue (by rw [h]) else isFalse (by intro h'; cases h'; exact h rfl)
+  | .error a, .error b => if h : a = b then isTrue (by rw [h]) else isFalse (by intro h'; cases h'; exact h rfl)
+  | .ok _, .error _ => isFalse (by intro h; cases h)
+  | .error _, .ok _ => isFalse (by intro h; cases h)
+
 
 /-! ## Pins: the tables the tool loaded are what the data files and the specification say -/
 
@@ -62,6 +76,57 @@ theorem ascii_compatible_law : ∀ r ∈ codecFacts, (r.tAscii = true ↔ r.decI
   have := all_rows ascii_rows r hr
   simp only [asciiLaw, beq_iff_eq] at this
   rw [this]; simp
+
+/-! ### which bytes the test looks at — the structural reason behind the law, and who can tell a different choice -/
+
+/-- the 23 ASCII bytes the tool does NOT test: every C0 control but NUL EOT BEL BS HT LF VT FF CR ESC, and DEL -/
+theorem ascii_untested_bytes :
+    ((List.range 128).filter fun b => !interestingBytes.contains b) =
+      [1, 2, 3, 5, 6, 14, 15, 16, 17, 18, 19, 20, 21, 22, 23, 24, 25, 26, 28, 29, 30, 31, 127] := untested_pin
+
+/-- **the verdict looks at the tested bytes only**: for a codec that decodes byte by byte (`f`), `is_ascii_compatible_encoding` is
+    true iff `f` is the identity on `_interesting_ascii_bytes`; two such codecs that agree there get the same verdict, whatever
+    they do to the 23 other bytes (VISCII: six of them are letters) -/
+theorem ascii_verdict_bytewise (f g : Nat → Nat) (mo : Bool) :
+    isAsciiCompatible interestingStr (.text (interestingBytes.map f)) mo = .ok (decide (∀ b ∈ interestingBytes, f b = b)) ∧
+    ((∀ b ∈ interestingBytes, f b = g b) →
+      isAsciiCompatible interestingStr (.text (interestingBytes.map f)) mo = isAsciiCompatible interestingStr (.text (interestingBytes.map g)) mo) := by
+  refine ⟨isAsciiCompatible_bytewise f mo, fun h => ?_⟩
+  have : interestingBytes.map f = interestingBytes.map g := List.map_congr_left h
+  rw [this]
+
+/-- **who can tell a different test set** (every row of CodecFacts, verdicts recomputed by the translator over the changed
+    set): decoding all 128 bytes to themselves implies the tool's "yes"; the two readings differ exactly on the rows that one
+    added byte flips — VISCII (02 05 06 14 19 1E) and ISO-2022-KR (SO, SI), nothing else; removing ONE tested byte changes
+    a verdict only for `%` (cp864), `+` (UTF-7), `~` (HZ) and only from "no" to "yes" — any other single-byte narrowing of
+    `_interesting_ascii_bytes` is invisible on every codec this interpreter and the tool know (only `repertoire_pin` sees it) -/
+theorem ascii_test_set_sensitivity : ∀ r ∈ codecFacts,
+    (r.fullAsciiId = true → r.tAscii = true) ∧
+    ((r.tAscii = true ∧ r.fullAsciiId = false) ↔ r.addSens ≠ []) ∧
+    (r.dropSens ≠ [] → r.tAscii = false) ∧
+    r.addSens = expectedAdd r.codec ∧ r.dropSens = expectedDrop r.codec ∧
+    (∀ b ∈ r.dropSens, b ∈ interestingBytes) ∧ (∀ b ∈ r.addSens, b ∉ interestingBytes ∧ b < 128) := by
+  intro r hr
+  have h1 := all_rows readings_rows r hr
+  have h2 := all_rows sens_rows r hr
+  simp only [readingsLaw, Bool.and_eq_true, Bool.or_eq_true, Bool.not_eq_true', beq_iff_eq, List.all_eq_true,
+    List.contains_iff_mem, List.isEmpty_iff] at h1
+  simp only [sensLaw, Bool.and_eq_true, beq_iff_eq] at h2
+  obtain ⟨⟨⟨⟨a1, a2⟩, a3⟩, a4⟩, a5⟩ := h1
+  refine ⟨?_, ?_, ?_, h2.2, h2.1, a4, ?_⟩
+  · intro hf; rcases a1 with h | h
+    · rw [hf] at h; cases h
+    · exact h
+  · cases ht : r.tAscii <;> cases hf : r.fullAsciiId <;> cases ha : r.addSens <;> simp_all
+  · intro hd; rcases a3 with h | h
+    · exact (hd h).elim
+    · exact h
+  · intro b hb
+    have hm := a5 b hb
+    have hu := untested_pin
+    rw [← hu] at hm
+    simp only [List.mem_filter, List.mem_range, Bool.not_eq_true', List.contains_eq_mem, decide_eq_false_iff_not] at hm
+    exact ⟨hm.2, hm.1⟩
 
 /-- **unknown iff no usable text codec exists** (the registry has none, or it is not a text encoding, or it cannot be
     used: decoding the repertoire raises something other than UnicodeDecodeError) -/
@@ -131,6 +196,42 @@ theorem proposal_sound (lookup : Name → Option Name) (name : Name) :
   rw [List.all_eq_true] at this
   exact this
 
+/-! ### the registry itself: `codecs.lookup(name).name` as a model (C normalisation, alias table, `encodings.<module>`, the tool's
+search function), the structural reason behind "names the same codec" -/
+
+/-- **the model of `codecs.lookup` gives the registry's answer** for every codec name known to Python, gettext or the tool -/
+theorem registry_model_matches : ∀ r ∈ codecFacts, registry r.name = r.codec := by
+  intro r hr
+  have := all_rows registry_rows r hr
+  simpa using this
+
+/-- the model of `propose_portable_encoding` run on the MODEL of the registry gives every proposal the tool made -/
+theorem proposal_via_registry : ∀ r ∈ codecFacts,
+    proposeEq (propose portableEncodings pycodecToEncoding registry r.name) r.tProposal = true := by
+  intro r hr
+  have h1 := model_matches_tool r hr
+  simp only [rowModelOk, Bool.and_eq_true] at h1
+  have h2 := registry_model_matches r hr
+  have : propose portableEncodings pycodecToEncoding registry r.name =
+      propose portableEncodings pycodecToEncoding (fun _ => r.codec) r.name := by
+    simp only [propose, h2]
+  rw [this]
+  exact h1.1.1.2
+
+/-- **for EVERY name (any string without NUL), under the registry model: a proposal is portable and the registry resolves it to
+    the same codec as the original name** — the alias relation behind every proposal; the registry does not look at ASCII case
+    (`registry (upper n) = registry n`), which is why the upper-cased proposal is the same codec -/
+theorem proposal_same_codec_every_name (name p : Name)
+    (h : propose portableEncodings pycodecToEncoding registry name = .ok (some p)) :
+    registry p = registry name ∧ isPortable portableEncodings true p = true ∧ (∀ n, registry (upper n) = registry n) := by
+  refine ⟨?_, proposal_portable _ _ _ name p h, fun n => registryLookup_upper _ _ _ _ _ n⟩
+  have hcl : ∀ kv ∈ pycodecToEncoding, registry (upper kv.2) = some kv.1 := by
+    have := registry_c2e_closed
+    rw [List.all_eq_true] at this
+    intro kv hkv
+    simpa using this kv hkv
+  exact (proposal_sound registry name).2 hcl p h
+
 /-- the running registry does resolve them -/
 theorem registry_closed :
     (pycodecToEncoding.all fun kv => (rowOf' (upper kv.2)).map (·.codec) == some (some kv.1)) = true := c2e_closed
@@ -175,6 +276,108 @@ theorem koi8t_table_roundtrip (bs : List UInt8) (cs : List Nat) (h : charmapDeco
     charmapEncode koi8tTable cs = .ok bs :=
   Charset.charmap_roundtrip koi8tTable (injBool_sound _ koi8t_injective) bs cs h
 
+/-! ### the reverse direction, the bijection, exact error positions -/
+
+/-- **decode(encode(s)) = s** for every table — whenever `charmap_build` took its trie form (which never maps U+FFFE), or the
+    text does not contain U+FFFE … -/
+theorem charmap_encode_decode (table : List Nat) (cs : List Nat) (bs : List UInt8)
+    (hu : needDict table = false ∨ undefinedCp ∉ cs)
+    (h : charmapEncode table cs = .ok bs) : charmapDecode table bs = .ok cs := Charset.charmap_encode_decode table cs bs hu h
+
+/-- … and that side condition is needed: in the dict form of `charmap_build` U+FFFE is an ordinary key, while the decoder
+    reads U+FFFE as "undefined" (`'\ufffe'.encode` succeeds, decoding the result raises) -/
+theorem charmap_encode_decode_needs_trie :
+    needDict [1, 0xFFFE] = true ∧ charmapEncode [1, 0xFFFE] [0xFFFE] = .ok [1] ∧ charmapDecode [1, 0xFFFE] [1] = .error (0, 1) := by
+  decide +kernel
+
+/-- **the bijection on the defined repertoire** (every table injective on its defined entries, trie form): byte `b` decodes
+    to the defined character `c` iff `c` encodes to `b` -/
+theorem charmap_bijection (table : List Nat) (hinj : InjectiveOnDefined table) (htrie : needDict table = false)
+    (b : UInt8) (c : Nat) : (table[b.toNat]? = some c ∧ c ≠ undefinedCp) ↔ encLookup table c = some b :=
+  encLookup_iff table hinj htrie b c
+
+/-- encoding succeeds iff every character has a byte; decoding succeeds iff every byte has a defined entry -/
+theorem charmap_ok_iff (table : List Nat) (cs : List Nat) (bs : List UInt8) :
+    ((∃ out, charmapEncode table cs = .ok out) ↔ ∀ c ∈ cs, (encLookup table c).isSome = true) ∧
+    ((∃ out, charmapDecode table bs = .ok out) ↔ ∀ b ∈ bs, definedAt table b = true) :=
+  ⟨encodeFrom_ok_iff _ cs 0, decodeFrom_ok_iff table bs 0⟩
+
+/-- **UnicodeEncodeError positions**: `start .. end` is exactly the first run of unencodable characters — everything before
+    `start` encodes, nothing in `start .. end` does, the character at `end` (if there is one) does -/
+theorem charmap_encode_error_position (table : List Nat) (cs : List Nat) (s e : Nat)
+    (h : charmapEncode table cs = .error (s, e)) :
+    s < e ∧ e ≤ cs.length ∧
+    (∀ k, k < s → ∃ c, cs[k]? = some c ∧ (encLookup table c).isSome = true) ∧
+    (∀ k, s ≤ k → k < e → ∃ c, cs[k]? = some c ∧ encLookup table c = none) ∧
+    (∀ c, cs[e]? = some c → (encLookup table c).isSome = true) := charmapEncode_error_exact table cs s e h
+
+/-- **UnicodeDecodeError positions**: `start` is the first byte without a defined entry, `end = start + 1` -/
+theorem charmap_decode_error_position (table : List Nat) (bs : List UInt8) (s e : Nat)
+    (h : charmapDecode table bs = .error (s, e)) :
+    e = s + 1 ∧ s < bs.length ∧
+    (∀ k, k < s → ∃ b, bs[k]? = some b ∧ definedAt table b = true) ∧
+    (∃ b, bs[s]? = some b ∧ definedAt table b = false) := charmapDecode_error_exact table bs s e h
+
+/-- the three shipped tables, both directions: what encodes decodes back to the same text, a character encodes iff it is one
+    of the 256 entries (to the byte at which it stands), and an encode error names the first run of characters outside the table -/
+theorem extra_charmaps_bijective : ∀ kv ∈ charmaps,
+    (∀ cs bs, charmapEncode kv.2 cs = .ok bs → charmapDecode kv.2 bs = .ok cs) ∧
+    (∀ (b : UInt8) c, kv.2[b.toNat]? = some c ↔ encLookup kv.2 c = some b) ∧
+    (∀ cs s e, charmapEncode kv.2 cs = .error (s, e) → s < e ∧ e ≤ cs.length ∧
+      (∀ k, s ≤ k → k < e → ∃ c, cs[k]? = some c ∧ c ∉ kv.2) ∧ (∀ k, k < s → ∃ c, cs[k]? = some c ∧ c ∈ kv.2)) := by
+  intro kv hkv
+  have htrie := trie_of_mem kv hkv
+  have hinj := injective_of_mem kv hkv
+  have hc := charmaps_complete
+  rw [List.all_eq_true] at hc
+  have hcomp := hc kv hkv
+  simp only [complete, Bool.and_eq_true, beq_iff_eq, List.all_eq_true, bne_iff_ne, ne_eq] at hcomp
+  have hmem : ∀ c, c ∈ kv.2 ↔ (encLookup kv.2 c).isSome = true := by
+    intro c
+    constructor
+    · intro hm
+      obtain ⟨i, hi, hget⟩ := List.getElem_of_mem hm
+      have hi' : i < 256 := by omega
+      have hb : (UInt8.ofNat i).toNat = i := by rw [UInt8.toNat_ofNat']; omega
+      have h1 : kv.2[(UInt8.ofNat i).toNat]? = some c := by rw [hb, List.getElem?_eq_getElem hi, hget]
+      rw [encLookup_of_entry kv.2 hinj (UInt8.ofNat i) c h1 (hcomp.2 c hm)]; rfl
+    · intro hs
+      cases hl : encLookup kv.2 c with
+      | none => simp [hl] at hs
+      | some b => exact List.mem_of_getElem? (encLookup_sound kv.2 c b hl).1
+  refine ⟨fun cs bs h => Charset.charmap_encode_decode kv.2 cs bs (.inl htrie) h, ?_, ?_⟩
+  · intro b c
+    rw [← encLookup_iff kv.2 hinj htrie b c]
+    exact ⟨fun h => ⟨h, hcomp.2 c (List.mem_of_getElem? h)⟩, fun h => h.1⟩
+  · intro cs s e h
+    obtain ⟨h1, h2, h3, h4, _⟩ := charmapEncode_error_exact kv.2 cs s e h
+    refine ⟨h1, h2, ?_, ?_⟩
+    · intro k hk1 hk2
+      obtain ⟨c, hc1, hc2⟩ := h4 k hk1 hk2
+      exact ⟨c, hc1, fun hm => by have := (hmem c).1 hm; simp [hc2] at this⟩
+    · intro k hk
+      obtain ⟨c, hc1, hc2⟩ := h3 k hk
+      exact ⟨c, hc1, (hmem c).2 hc2⟩
+
+/-- glibc's KOI8-T table, both directions: lossless from text to bytes as well, a bijection between the bytes it accepts and
+    the characters it encodes, and exact error positions (an undefined byte / the first run of unencodable characters) -/
+theorem koi8t_table_bijective :
+    (∀ cs bs, charmapEncode koi8tTable cs = .ok bs → charmapDecode koi8tTable bs = .ok cs) ∧
+    (∀ (b : UInt8) c, (koi8tTable[b.toNat]? = some c ∧ c ≠ undefinedCp) ↔ encLookup koi8tTable c = some b) ∧
+    (∀ bs s e, charmapDecode koi8tTable bs = .error (s, e) → e = s + 1 ∧ s < bs.length ∧
+      (∃ b, bs[s]? = some b ∧ definedAt koi8tTable b = false) ∧ (∀ k, k < s → ∃ b, bs[k]? = some b ∧ definedAt koi8tTable b = true)) ∧
+    (∀ cs s e, charmapEncode koi8tTable cs = .error (s, e) → s < e ∧ e ≤ cs.length ∧
+      (∀ k, s ≤ k → k < e → ∃ c, cs[k]? = some c ∧ encLookup koi8tTable c = none) ∧
+      (∀ k, k < s → ∃ c, cs[k]? = some c ∧ (encLookup koi8tTable c).isSome = true)) := by
+  refine ⟨fun cs bs h => Charset.charmap_encode_decode _ cs bs (.inl koi8t_trie) h,
+    fun b c => encLookup_iff _ (injBool_sound _ koi8t_injective) koi8t_trie b c, ?_, ?_⟩
+  · intro bs s e h
+    obtain ⟨h1, h2, h3, h4⟩ := charmapDecode_error_exact _ bs s e h
+    exact ⟨h1, h2, h4, h3⟩
+  · intro cs s e h
+    obtain ⟨h1, h2, h3, h4, _⟩ := charmapEncode_error_exact _ cs s e h
+    exact ⟨h1, h2, h4, h3⟩
+
 /-! ## Loading a file with a codec that passed the ASCII-compatibility test -/
 
 /-- `encodings.decode` (used for PO text, PO escapes and MO strings) yields text or a UnicodeDecodeError with a valid span —
@@ -208,6 +411,110 @@ theorem euctw_roundtrip_refuted (cns : CnsTable) (inv : CnsInverse) (h : AgreesW
     (eucTwDecode cns [0x8E, 0xA1, 0xA4, 0xA1] = .ok [0xFF10] ∧ eucTwEncode inv [0xFF10] = .ok [0xA4, 0xA1]) ∧
     (eucTwDecode cns [0x8E, 0xA3, 0xA1, 0xB8] = .ok [0x5344] ∧ eucTwEncode inv [0x5344] = .ok [0xA4, 0xBF]) ∧
     ¬ (∀ bs cs, eucTwDecode cns bs = .ok cs → eucTwEncode inv cs = .ok bs) := eucTw_roundtrip_refuted cns inv h
+
+/-! ## EUC-TW over the CNS 11643 tables of the system iconv
+
+`Generated.CharsetCns*` holds every answer of glibc's iconv: the 17 × 8836 units `r c` / `8E A0+p r c` (p = 1..16) and every
+character U+0080..U+10FFFF.  `cnsReal` / `invReal` read them; seven modules let the kernel pass over all of it
+(`Lemmas/CharsetCnsK1..K7`), `Lemmas/CharsetCns` turns the pass into statements about the two functions. -/
+
+/-- pins: the two-byte and the four-byte form of plane 1 share one table; iconv accepts units in planes 1–7 and 15 only; it drops
+    exactly the TAG characters; U+5344 stands twice; and the real tables agree with the witnesses `euctw_roundtrip_refuted` uses -/
+theorem euctw_tables_pin :
+    plane1two = plane1 ∧ planesAccepted = [1, 2, 3, 4, 5, 6, 7, 15] ∧ ignoredRanges = [(0xE0000, 0xE007F)] ∧
+    (cnsReal 3 0xA1 0xB8 = some 0x5344 ∧ cnsReal 1 0xA4 0xBF = some 0x5344 ∧ invReal 0x5344 = some (1, 0xA4, 0xBF)) ∧
+    AgreesWithIconv cnsReal invReal := by
+  refine ⟨plane1_forms_agree, by decide, ignored_pin.1, dup_fact, ⟨?_, ?_⟩⟩
+  · have : (eucTwDecodeFacts.all fun f => eucTwDecode cnsReal (toBytes f.1) == .ok [f.2]) = true := by decide +kernel
+    intro f hf
+    rw [List.all_eq_true] at this
+    simpa using this f hf
+  · have : (eucTwEncodeFacts.all fun f => eucTwEncode invReal [f.1] == .ok (toBytes f.2)) = true := by decide +kernel
+    intro f hf
+    rw [List.all_eq_true] at this
+    simpa using this f hf
+
+/-- **decoding is total**: every byte string yields a text of Unicode scalar values (so `outbuf[:n]` cannot raise: none is a
+    surrogate or above U+10FFFF), at most one character per byte — or an error whose offset lies inside the input -/
+theorem euctw_decode_total (bs : List UInt8) :
+    (∃ cs, eucTwDecodeReal bs = .ok cs ∧ cs.length ≤ bs.length ∧ ∀ c ∈ cs, isScalar c = true ∧ isTag c = false) ∨
+    (∃ s k, eucTwDecodeReal bs = .error (s, k) ∧ s < bs.length) := by
+  cases h : eucTwDecodeReal bs with
+  | ok cs =>
+    obtain ⟨h1, h2, _⟩ := decodeLoop_real_facts bs.length 0 0 bs cs h
+    exact .inl ⟨cs, rfl, h1, h2⟩
+  | error e =>
+    obtain ⟨s, k⟩ := e
+    exact .inr ⟨s, k, rfl, euctw_decode_error_position cnsReal bs s k h⟩
+
+/-- **encode(decode(b)) = b exactly when `b` has no redundant unit** — full strength over the real tables: the four-byte
+    form of plane 1 (`8E A1 r c`) and the one unit `8E A3 A1 B8` are the only obstacles -/
+theorem euctw_roundtrip (bs : List UInt8) (cs : List Nat) (h : eucTwDecodeReal bs = .ok cs) :
+    eucTwEncodeReal cs = .ok bs ↔ eucTwNoRedundant cnsReal bs.length bs = true := by
+  constructor
+  · intro henc
+    exact roundtrip_noRedundant bs.length 0 0 bs cs h henc
+  · intro hn
+    rw [← canonical_eq_noRedundant] at hn
+    exact eucTw_roundtrip cnsReal invReal bs cs h hn
+
+/-- **decode(encode(s)) = s — except that glibc drops TAG characters**: whatever the encoder accepts decodes to the text
+    without its TAG characters U+E0000..U+E007F (so to the text itself when it has none) -/
+theorem euctw_encode_decode (cs : List Nat) (bs : List UInt8) (h : eucTwEncodeReal cs = .ok bs) :
+    eucTwDecodeReal bs = .ok (cs.filter fun c => !isTag c) ∧
+    ((∀ c ∈ cs, isTag c = false) → eucTwDecodeReal bs = .ok cs) := by
+  have := encode_decode_loop cs bs.length 0 0 bs h (Nat.le_refl _)
+  refine ⟨this, fun hn => ?_⟩
+  rw [show eucTwDecodeReal bs = _ from this]
+  congr 1
+  rw [List.filter_eq_self]
+  intro c hc
+  simp [hn c hc]
+
+/-- … and the exception is real: `'a\U000E0041b'.encode('EUC-TW') == b'ab'` -/
+theorem euctw_encode_drops_tags :
+    eucTwEncodeReal [0x61, 0xE0041, 0x62] = .ok [0x61, 0x62] ∧ eucTwDecodeReal [0x61, 0x62] = .ok [0x61, 0x62] := by decide +kernel
+
+/-- **the encoder writes the short form**: whatever decodes is encodable, to no more bytes than were read, and the bytes
+    written decode to the same text (two bytes for plane 1, `A4 BF` for U+5344) -/
+theorem euctw_encode_short_form (bs : List UInt8) (cs : List Nat) (h : eucTwDecodeReal bs = .ok cs) :
+    ∃ bs', eucTwEncodeReal cs = .ok bs' ∧ bs'.length ≤ bs.length ∧ eucTwDecodeReal bs' = .ok cs ∧
+      eucTwNoRedundant cnsReal bs'.length bs' = true := by
+  obtain ⟨_, h2, bs', h3, h4⟩ := decodeLoop_real_facts bs.length 0 0 bs cs h
+  have hd := (euctw_encode_decode cs bs' h3).2 (fun c hc => (h2 c hc).2)
+  exact ⟨bs', h3, h4, hd, (euctw_roundtrip bs' cs hd).1 h3⟩
+
+/-- **the non-injective units, exactly**: a unit is canonical (the form the encoder writes for its character) iff it is not
+    redundant; and a decodable byte string shares its text with a *different* byte string free of redundant units iff it
+    contains a redundant unit itself.  Restricted to byte strings without redundant units the decoder is injective. -/
+theorem euctw_noninjective_exactly :
+    (∀ bs, (eucTwUnit cnsReal bs).canonical invReal = !(eucTwUnit cnsReal bs).redundant) ∧
+    (∀ bs cs, eucTwDecodeReal bs = .ok cs →
+      ((∃ bs', bs' ≠ bs ∧ eucTwDecodeReal bs' = .ok cs ∧ eucTwNoRedundant cnsReal bs'.length bs' = true) ↔
+        eucTwNoRedundant cnsReal bs.length bs = false)) ∧
+    (∀ bs bs' cs, eucTwDecodeReal bs = .ok cs → eucTwDecodeReal bs' = .ok cs →
+      eucTwNoRedundant cnsReal bs.length bs = true → eucTwNoRedundant cnsReal bs'.length bs' = true → bs = bs') := by
+  have hinj : ∀ bs bs' cs, eucTwDecodeReal bs = .ok cs → eucTwDecodeReal bs' = .ok cs →
+      eucTwNoRedundant cnsReal bs.length bs = true → eucTwNoRedundant cnsReal bs'.length bs' = true → bs = bs' := by
+    intro bs bs' cs h h' hn hn'
+    have e1 := (euctw_roundtrip bs cs h).2 hn
+    have e2 := (euctw_roundtrip bs' cs h').2 hn'
+    rw [e1] at e2
+    cases e2; rfl
+  refine ⟨unit_canonical_iff, ?_, hinj⟩
+  intro bs cs h
+  constructor
+  · rintro ⟨bs', hne, h', hn'⟩
+    cases hn : eucTwNoRedundant cnsReal bs.length bs
+    · rfl
+    · exact (hne (hinj bs' bs cs h' h hn' hn)).elim
+  · intro hn
+    obtain ⟨bs', h3, _, hd, hn'⟩ := euctw_encode_short_form bs cs h
+    refine ⟨bs', ?_, hd, hn'⟩
+    intro he
+    subst he
+    rw [hn] at hn'
+    cases hn'
 
 /-! ## The iconv binding: `_decode_dl` / `_encode_dl` over an abstract iconv -/
 
@@ -247,6 +554,77 @@ theorem iconv_encode_loop_terminates (step : Step) (n need fuel : Nat) (hne : n 
   unfold encodeDl
   simp only [hne, if_false]
   exact encodeLoop_terminates step n need hb fuel n (by omega) (by omega) (by omega)
+
+/-- **the exact schedule** — for every iconv: round `i` of `_decode_dl` is told `len(input) · 2^i` bytes of the `4 ·` that
+    allocated, round `i` of `_encode_dl` is told all of the `len(input) · 2^i` bytes allocated -/
+theorem iconv_loop_schedule (step : Step) (input : List UInt8) (n fuel i : Nat) (a : Alloc) :
+    ((decodeDl step input fuel).2[i]? = some a → a.told = input.length * 2 ^ i ∧ a.allocated = 4 * (input.length * 2 ^ i)) ∧
+    ((encodeDl step n fuel).2[i]? = some a → a.told = n * 2 ^ i ∧ a.allocated = n * 2 ^ i) := by
+  constructor
+  · intro h
+    unfold decodeDl at h
+    split at h
+    · simp at h
+    · exact decodeLoop_schedule step input fuel _ i a h
+  · intro h
+    unfold encodeDl at h
+    split at h
+    · simp at h
+    · exact encodeLoop_schedule step n fuel _ i a h
+
+/-- **(b′) a logarithmic number of rounds**: if iconv stops answering E2BIG once told `need` bytes, and `len · 2^k ≥ need`, the
+    loop makes at most `k + 1` rounds (so `⌈log2 (need / len)⌉ + 1`) and needs no more fuel than that -/
+theorem iconv_loop_rounds_log (step : Step) (input : List UInt8) (n need fuel k : Nat) :
+    ((∀ told, need ≤ told → (step told).reset = none → (callBoth input.length told (step told)).rc ≠ .e2big) →
+      need ≤ input.length * 2 ^ k →
+      (decodeDl step input fuel).2.length ≤ k + 1 ∧ (k < fuel → (decodeDl step input fuel).1.finished = true)) ∧
+    ((∀ told, need ≤ told → (step told).reset = none → (callBoth (4 * n) told (step told)).rc ≠ .e2big) →
+      need ≤ n * 2 ^ k →
+      (encodeDl step n fuel).2.length ≤ k + 1 ∧ (k < fuel → (encodeDl step n fuel).1.finished = true)) := by
+  constructor
+  · intro hb hk
+    unfold decodeDl
+    split
+    · simp [Outcome.finished]
+    · exact decodeLoop_rounds step input need hb fuel _ k hk
+  · intro hb hk
+    unfold encodeDl
+    split
+    · simp [Outcome.finished]
+    · exact encodeLoop_rounds step n need hb fuel _ k hk
+
+/-- **the buffer stays below twice what is needed**: against an iconv that answers E2BIG only when told fewer than `need`
+    bytes, every round after the first is told fewer than `2 · need` bytes (and allocates that, resp. four times that) -/
+theorem iconv_loop_buffer_bound (step : Step) (input : List UInt8) (n need fuel : Nat) :
+    ((∀ told, (step told).reset = none → (callBoth input.length told (step told)).rc = .e2big → told < need) →
+      ∀ a ∈ (decodeDl step input fuel).2, a.told = input.length ∨ a.told < 2 * need) ∧
+    ((∀ told, (step told).reset = none → (callBoth (4 * n) told (step told)).rc = .e2big → told < need) →
+      ∀ a ∈ (encodeDl step n fuel).2, (a.told = n ∨ a.told < 2 * need) ∧ a.allocated = a.told) := by
+  constructor
+  · intro he a ha
+    unfold decodeDl at ha
+    split at ha
+    · simp at ha
+    · exact decodeLoop_buffer step input need he fuel _ a ha
+  · intro he a ha
+    have hal := (iconv_told_le_allocated step [] n fuel).2 a ha
+    unfold encodeDl at ha
+    split at ha
+    · simp at ha
+    · exact ⟨encodeLoop_buffer step n need he fuel _ a ha, hal.2.1⟩
+
+/-- **what termination rests on**: a loop that stops doubling (`output_len = 2 * len(input)` in place of `output_len *= 2`) never
+    ends against a contract-abiding iconv — one character that needs three bytes (`€` to UTF-8): told 1, 2, 2, 2, … bytes it
+    answers E2BIG for ever — while the loop as written is told 1, 2, 4 and returns the three bytes; `encodeLoopG` with
+    `· * 2` is the model of the code -/
+theorem non_doubling_loop_diverges :
+    ConvertsTo euroStep (4 * 1) [0xE2, 0x82, 0xAC] 3 ∧
+    (∀ fuel, (encodeLoopG (fun _ => 2 * 1) euroStep 1 fuel 1).1 = .outOfFuel) ∧
+    (encodeDl euroStep 1 3).1 = .ok [0xE2, 0x82, 0xAC] ∧ (encodeDl euroStep 1 3).2 = [⟨1, 1⟩, ⟨2, 2⟩, ⟨4, 4⟩] ∧
+    (∀ step n fuel L, encodeLoopG (· * 2) step n fuel L = encodeLoop step n fuel L) :=
+  ⟨euroStep_contract, fun fuel => stuck_loop_never_ends fuel 1 (by omega),
+    encodeLoop_returns_produced euroStep 1 _ 3 euroStep_contract 3 1 (by omega) (by omega) (by omega),
+    by decide +kernel, encodeLoopG_double⟩
 
 /-- **(c) the result is exactly what iconv produced**: against an iconv that answers E2BIG below `need` bytes and otherwise
     converts the whole input into `produced` (wide characters within U+0000..U+10FFFF — glibc's UTF-8 → WCHAR_T does not
@@ -293,6 +671,172 @@ theorem iconv_loop_error_span (step : Step) (input : List UInt8) (n fuel s e : N
     · have := encodeLoop_error_span step n hc fuel n s e h
       omega
 
+/-! ### the iconv-backed codecs end to end: the loop of `lib/iconv.py` ∘ a reference iconv for the charset
+
+`refDecStep` / `refEncStep` (`Lemmas/CharsetIconvRef`): an iconv that converts unit by unit, checks the room first as glibc's
+skeleton does, leaves the offending unit unconsumed.  Its description of EUC-TW is `eucTwUnit` / `eucTwEncodeChar` over the
+tables of the system iconv; of KOI8-T, glibc's single-byte table. -/
+
+/-- **`bytes.decode('EUC-TW')` as the tool implements it** (loop ∘ reference iconv over the real tables), for every byte string
+    and any fuel ≥ 3 rounds: the text `eucTwDecodeReal` yields, or `UnicodeDecodeError` with `start` = the offset of the
+    offending unit and `start < end ≤ len(input)`; never ValueError / AssertionError / OSError -/
+theorem euctw_codec_decode (bs : List UInt8) (fuel : Nat) (hfuel : 3 ≤ fuel) :
+    (∀ cs, eucTwDecodeReal bs = .ok cs → (decodeDl (refDecStep (eucUnitFn cnsReal) bs) bs fuel).1 = .ok cs) ∧
+    (∀ s k, eucTwDecodeReal bs = .error (s, k) →
+      (decodeDl (refDecStep (eucUnitFn cnsReal) bs) bs fuel).1 = .unicodeError s (syncEnd bs s) ∧ s < syncEnd bs s ∧ syncEnd bs s ≤ bs.length) := by
+  constructor
+  · intro cs h
+    have hv : ∀ c ∈ cs, c ≤ 0x10FFFF := by
+      intro c hc
+      have := ((decodeLoop_real_facts bs.length 0 0 bs cs h).2.1 c hc).1
+      simp only [isScalar, Bool.and_eq_true, decide_eq_true_eq] at this
+      exact this.1
+    have h' : unitDecodeLoop (eucUnitFn cnsReal) bs.length 0 bs = .ok cs := by rw [← eucTwDecodeLoop_eq]; exact h
+    exact decodeDl_ref_ok _ (eucUnitFn_wf cnsReal) bs cs fuel h' hv hfuel
+  · intro s k h
+    have h' : unitDecodeLoop (eucUnitFn cnsReal) bs.length 0 bs = .error (s, k) := by rw [← eucTwDecodeLoop_eq]; exact h
+    exact decodeDl_ref_err _ (eucUnitFn_wf cnsReal) bs s k fuel h' hfuel
+
+/-- **`str.encode('EUC-TW')` as the tool implements it**: the bytes `eucTwEncodeReal` yields, or `UnicodeEncodeError(i, i + 1)` at
+    the first character without a code, `i < len(input)` -/
+theorem euctw_codec_encode (cs : List Nat) (fuel : Nat) (hfuel : 3 ≤ fuel) :
+    (∀ bs, eucTwEncodeReal cs = .ok bs → (encodeDl (refEncStep (eucTwEncodeChar invReal) cs) cs.length fuel).1 = .ok bs) ∧
+    (∀ i, eucTwEncodeReal cs = .error i →
+      (encodeDl (refEncStep (eucTwEncodeChar invReal) cs) cs.length fuel).1 = .unicodeError i (i + 1) ∧ i < cs.length) := by
+  constructor
+  · intro bs h
+    have h' : encodeAllFrom (eucTwEncodeChar invReal) 0 cs = .ok bs := by rw [← eucTwEncodeFrom_eq]; exact h
+    exact encodeDl_ref_ok _ (eucTwEncodeChar_max invReal) cs bs fuel h' hfuel
+  · intro i h
+    have h' : encodeAllFrom (eucTwEncodeChar invReal) 0 cs = .error i := by rw [← eucTwEncodeFrom_eq]; exact h
+    exact encodeDl_ref_err _ (eucTwEncodeChar_max invReal) cs i fuel h' hfuel
+
+/-- **the clause itself, end to end, for EUC-TW**: whenever the tool's decode of `b` succeeds with text `t`, the tool's encode
+    of `t` returns `b` iff `b` contains no redundant unit (four-byte plane 1, `8E A3 A1 B8`); it never fails on such `t` -/
+theorem euctw_codec_roundtrip (bs : List UInt8) (cs : List Nat) (fuel : Nat) (hfuel : 3 ≤ fuel)
+    (h : (decodeDl (refDecStep (eucUnitFn cnsReal) bs) bs fuel).1 = .ok cs) :
+    eucTwDecodeReal bs = .ok cs ∧
+    ((encodeDl (refEncStep (eucTwEncodeChar invReal) cs) cs.length fuel).1 = .ok bs ↔ eucTwNoRedundant cnsReal bs.length bs = true) ∧
+    ∃ bs', (encodeDl (refEncStep (eucTwEncodeChar invReal) cs) cs.length fuel).1 = .ok bs' := by
+  have hd : eucTwDecodeReal bs = .ok cs := by
+    cases hdec : eucTwDecodeReal bs with
+    | ok cs' =>
+      have := (euctw_codec_decode bs fuel hfuel).1 cs' hdec
+      rw [this] at h
+      cases h; rfl
+    | error e =>
+      obtain ⟨s, k⟩ := e
+      have := ((euctw_codec_decode bs fuel hfuel).2 s k hdec).1
+      rw [this] at h
+      cases h
+  obtain ⟨bs', he, _, _, _⟩ := euctw_encode_short_form bs cs hd
+  have hl := (euctw_codec_encode cs fuel hfuel).1 bs' he
+  refine ⟨hd, ?_, bs', hl⟩
+  rw [← euctw_roundtrip bs cs hd, hl, he]
+  constructor
+  · intro hx; cases hx; rfl
+  · intro hx; cases hx; rfl
+
+/-- **KOI8-T as the tool's own iconv-backed codec sees it** (loop ∘ reference iconv over glibc's table): decoding yields what the
+    table yields, an undefined byte at `s` gives `UnicodeDecodeError(s, next ASCII byte or end)`; encoding a text without TAG
+    characters yields what the table yields, the first unencodable character at `s` gives `UnicodeEncodeError(s, s + 1)`; and
+    the two round-trip in both directions -/
+theorem koi8t_codec (bs : List UInt8) (cs : List Nat) (fuel : Nat) (hfuel : 3 ≤ fuel) :
+    (∀ t, charmapDecode koi8tTable bs = .ok t → (decodeDl (refDecStep (tableUnitFn koi8tTable) bs) bs fuel).1 = .ok t ∧
+      (encodeDl (refEncStep (sbEncodeChar koi8tTable) t) t.length fuel).1 = .ok bs) ∧
+    (∀ s e, charmapDecode koi8tTable bs = .error (s, e) →
+      (decodeDl (refDecStep (tableUnitFn koi8tTable) bs) bs fuel).1 = .unicodeError s (syncEnd bs s) ∧ s < syncEnd bs s ∧ syncEnd bs s ≤ bs.length) ∧
+    ((∀ c ∈ cs, isTag c = false) →
+      (∀ b, charmapEncode koi8tTable cs = .ok b → (encodeDl (refEncStep (sbEncodeChar koi8tTable) cs) cs.length fuel).1 = .ok b ∧
+        (decodeDl (refDecStep (tableUnitFn koi8tTable) b) b fuel).1 = .ok cs) ∧
+      (∀ s e, charmapEncode koi8tTable cs = .error (s, e) →
+        (encodeDl (refEncStep (sbEncodeChar koi8tTable) cs) cs.length fuel).1 = .unicodeError s (s + 1) ∧ s < cs.length)) := by
+  have hwf := tableUnitFn_wf koi8tTable
+  have hmax := sbEncodeChar_max koi8tTable
+  have hdec : ∀ (b : List UInt8) (t : List Nat), charmapDecode koi8tTable b = .ok t →
+      (decodeDl (refDecStep (tableUnitFn koi8tTable) b) b fuel).1 = .ok t := by
+    intro b t h
+    have h' : unitDecodeLoop (tableUnitFn koi8tTable) b.length 0 b = .ok t := by
+      rw [tableDecode_eq koi8tTable b b.length 0 (Nat.le_refl _)]
+      unfold charmapDecode at h
+      rw [h]
+    have hv : ∀ c ∈ t, c ≤ 0x10FFFF := by
+      have hall : (koi8tTable.all fun c => c ≤ 0x10FFFF) = true := by decide +kernel
+      rw [List.all_eq_true] at hall
+      have hmem : ∀ (b : List UInt8) (i : Nat) (t : List Nat), charmapDecodeFrom koi8tTable i b = .ok t → ∀ c ∈ t, c ∈ koi8tTable := by
+        intro b
+        induction b with
+        | nil => intro i t h c hc; simp [charmapDecodeFrom] at h; subst h; simp at hc
+        | cons x xs ih =>
+          intro i t h c hc
+          simp only [charmapDecodeFrom] at h
+          split at h
+          · cases h
+          · rename_i c' hc'
+            split at h
+            · cases h
+            · split at h
+              · cases h
+              · rename_i t' ht'
+                cases h
+                rcases List.mem_cons.1 hc with rfl | hc
+                · exact List.mem_of_getElem? hc'
+                · exact ih _ _ ht' c hc
+      intro c hc
+      have := hall c (hmem b 0 t h c hc)
+      simpa using this
+    exact decodeDl_ref_ok _ hwf b t fuel h' hv hfuel
+  have henc : ∀ (t : List Nat) (b : List UInt8), (∀ c ∈ t, isTag c = false) → charmapEncode koi8tTable t = .ok b →
+      (encodeDl (refEncStep (sbEncodeChar koi8tTable) t) t.length fuel).1 = .ok b := by
+    intro t b ht h
+    have h' : encodeAllFrom (sbEncodeChar koi8tTable) 0 t = .ok b := by
+      rw [sbEncode_eq koi8tTable t 0 ht]
+      unfold charmapEncode at h
+      rw [h]
+    exact encodeDl_ref_ok _ hmax t b fuel h' hfuel
+  refine ⟨?_, ?_, ?_⟩
+  · intro t h
+    refine ⟨hdec bs t h, henc t bs ?_ (koi8t_table_roundtrip bs t h)⟩
+    -- no decoded character is a TAG character: the table has none
+    have hall : (koi8tTable.all fun c => !isTag c) = true := by decide +kernel
+    rw [List.all_eq_true] at hall
+    intro c hc
+    have hmem : ∀ (b : List UInt8) (i : Nat) (t : List Nat), charmapDecodeFrom koi8tTable i b = .ok t → ∀ c ∈ t, c ∈ koi8tTable := by
+      intro b
+      induction b with
+      | nil => intro i t h c hc; simp [charmapDecodeFrom] at h; subst h; simp at hc
+      | cons x xs ih =>
+        intro i t h c hc
+        simp only [charmapDecodeFrom] at h
+        split at h
+        · cases h
+        · rename_i c' hc'
+          split at h
+          · cases h
+          · split at h
+            · cases h
+            · rename_i t' ht'
+              cases h
+              rcases List.mem_cons.1 hc with rfl | hc
+              · exact List.mem_of_getElem? hc'
+              · exact ih _ _ ht' c hc
+    have := hall c (hmem bs 0 t h c hc)
+    simpa using this
+  · intro s e h
+    have h' : unitDecodeLoop (tableUnitFn koi8tTable) bs.length 0 bs = .error (s, false) := by
+      rw [tableDecode_eq koi8tTable bs bs.length 0 (Nat.le_refl _)]
+      unfold charmapDecode at h
+      rw [h]
+    exact decodeDl_ref_err _ hwf bs s false fuel h' hfuel
+  · intro ht
+    refine ⟨fun b h => ⟨henc cs b ht h, hdec b cs (koi8t_table_bijective.1 cs b h)⟩, ?_⟩
+    intro s e h
+    have h' : encodeAllFrom (sbEncodeChar koi8tTable) 0 cs = .error s := by
+      rw [sbEncode_eq koi8tTable cs 0 ht]
+      unfold charmapEncode at h
+      rw [h]
+    exact encodeDl_ref_err _ hmax cs s fuel h' hfuel
+
 /-- the binding is NOT total as a general API: an iconv that hands back a wide character above U+10FFFF (glibc does for the
     UTF-8 bytes F5 8F 9E 8D, target WCHAR_T) makes `outbuf[:n]` raise ValueError instead of a Unicode error.  None of the five
     extra codecs can produce such a value (their tables are Unicode). -/
@@ -329,6 +873,22 @@ theorem check_unrepresentable_iff (env : Env) (encoding : Name) (isTemplate : Bo
       e = kept ∧ cs = truncateChars (chars.filter fun c => env.encode kept c != .ok)) :=
   checkCharset_unrepresentable_iff env encoding isTemplate chars tags kept h hk
 
+/-- **the hypothesis `EncodeOk` is a theorem for the extra codecs as modelled** (every charmap table, EUC-TW over any CNS tables): only
+    Unicode errors, and a concatenation encodes only if every piece does — so for them `unrepresentable_iff` and
+    `check_unrepresentable_iff` hold without side condition: the characters reported are exactly the listed ones with a character
+    outside the table -/
+theorem extra_codecs_encode_ok (chars : List (List Nat)) :
+    (∀ table, EncodeOk (encOfExcept (charmapEncode table)) chars) ∧
+    (∀ inv, EncodeOk (encOfExcept (eucTwEncode inv)) chars) ∧
+    (∀ table, getUnrepresentable (encOfExcept (charmapEncode table)) chars =
+      .ok (chars.filter fun c => encOfExcept (charmapEncode table) c != .ok)) ∧
+    getUnrepresentable (encOfExcept eucTwEncodeReal) chars = .ok (chars.filter fun c => encOfExcept eucTwEncodeReal c != .ok) := by
+  refine ⟨fun t => encodeOk_charmap t chars, fun inv => encodeOk_eucTw inv chars, fun t => ?_, ?_⟩
+  · have h := encodeOk_charmap t chars
+    exact getUnrepresentable_spec _ chars h.pieces h.joined h.prefixClosed
+  · have h := encodeOk_eucTw invReal chars
+    exact getUnrepresentable_spec _ chars h.pieces h.joined h.prefixClosed
+
 /-- **the other tags**, for every name and environment: `unknown-encoding` iff no usable codec (and the name is not the
     template's CHARSET), `non-ascii-compatible-encoding` iff the repertoire does not decode to itself,
     `non-portable-encoding` iff ASCII-compatible and not portable, a proposal is portable and is the charset kept -/
@@ -361,12 +921,6 @@ theorem check_total (env : Env) (encoding : Name) (isTemplate : Bool) (character
 
 private def str (s : String) : List Nat := s.toList.map Char.toNat
 
-private instance exceptDecEq {ε α : Type} [DecidableEq ε] [DecidableEq α] : DecidableEq (Except ε α)
-  | .ok a, .ok b => if h : a = b then isTrue (by rw [h]) else isFalse (by intro h'; cases h'; exact h rfl)
-  | .error a, .error b => if h : a = b then isTrue (by rw [h]) else isFalse (by intro h'; cases h'; exact h rfl)
-  | .ok _, .error _ => isFalse (by intro h; cases h)
-  | .error _, .ok _ => isFalse (by intro h; cases h)
-
 /-- `propose_portable_encoding('windows-1250')` = `'CP1250'` (the registry calls both `cp1250`) -/
 example : propose portableEncodings pycodecToEncoding (fun _ => some (str "cp1250")) (str "windows-1250") = .ok (some (str "CP1250")) := by
   decide +kernel
@@ -394,6 +948,24 @@ example : (eucTwDecodeFacts.all fun f => eucTwDecode demoCns (toBytes f.1) == .o
     (eucTwEncodeFacts.all fun f => eucTwEncode demoInv [f.1] == .ok (toBytes f.2)) = true := by decide +kernel
 example : eucTwCanonical demoCns demoInv 4 [0x8E, 0xA2, 0xA4, 0xA1] = true ∧ eucTwCanonical demoCns demoInv 4 [0x8E, 0xA1, 0xA4, 0xA1] = false ∧
     eucTwDecode demoCns [0x41, 0xA4] = .error (1, true) ∧ eucTwDecode demoCns [0x41, 0xFF, 0x42] = .error (1, false) := by decide +kernel
+
+/-- the real tables: `A4 A1` is U+FF10; the four-byte form of plane 1 and `8E A3 A1 B8` are the redundant units; errors carry the
+    offset and whether the unit is merely incomplete; plane bytes above `B0` and planes iconv has no table for are illegal -/
+example : eucTwDecodeReal [0xA4, 0xA1, 0x41] = .ok [0xFF10, 0x41] ∧ eucTwDecodeReal [0x41, 0xA4] = .error (1, true) ∧
+    eucTwDecodeReal [0x8E, 0xA8, 0xA1, 0xA1] = .error (0, false) ∧ eucTwDecodeReal [0x41, 0x8E, 0xB1, 0xA1, 0xA1] = .error (1, false) := by
+  decide +kernel
+example : eucTwNoRedundant cnsReal 4 [0x8E, 0xA2, 0xA4, 0xA1] = true ∧ eucTwNoRedundant cnsReal 4 [0x8E, 0xA1, 0xA4, 0xA1] = false ∧
+    eucTwNoRedundant cnsReal 4 [0x8E, 0xA3, 0xA1, 0xB8] = false ∧ eucTwNoRedundant cnsReal 4 [0x8E, 0xA3, 0xA1, 0xB9] = true := by decide +kernel
+example : eucTwEncodeReal [0x5344, 0x20AC] = .error 1 ∧ eucTwEncodeReal [0x5344, 0x5FE3] = .ok [0xA4, 0xBF, 0x8E, 0xA2, 0xA4, 0xA1] := by
+  decide +kernel
+/-- the tool's EUC-TW decode of `A4 A1 41` against the reference iconv: told 3, 6, 12 bytes (12, 24, 48 allocated) — E2BIG, E2BIG
+    after one character, then both: three rounds are needed and suffice -/
+example : (decodeDl (refDecStep (eucUnitFn cnsReal) [0xA4, 0xA1, 0x41]) [0xA4, 0xA1, 0x41] 3).2 = [⟨12, 3⟩, ⟨24, 6⟩, ⟨48, 12⟩] ∧
+    (decodeDl (refDecStep (eucUnitFn cnsReal) [0xA4, 0xA1, 0x41]) [0xA4, 0xA1, 0x41] 2).1.finished = false := by decide +kernel
+/-- the registry model: punctuation and case do not matter, a dot does; EUC-TW comes from the tool's search function -/
+example : registry (nm "ISO_8859-1:1987") = some (nm "iso8859-1") ∧ registry (nm " Latin 1 ") = some (nm "iso8859-1") ∧
+    registry (nm "euc tw") = some (nm "euc-tw") ∧ registry (nm "utf.8") = none ∧ registry (nm "aliases") = none := by decide +kernel
+example : expectedDrop (some (nm "hz")) = [0x7E] ∧ expectedAdd (some (nm "viscii")) = [0x02, 0x05, 0x06, 0x14, 0x19, 0x1E] := by decide +kernel
 
 /-- an iconv that needs 8 bytes of room for the two characters of `ab` -/
 private def demoStep : Step := fun told =>
